@@ -114,9 +114,13 @@ def run(C, R):
                           and e['args'][0][0] == 'ref' and e['args'][0][1][0] == ('P', 'self')
                           and 'value' in fields_of(e['args'][0][1])]
                 inner = path.ret[3][0][1] if pv == 'Ready' and path.ret[0] == 'agg' else None
-                if pv == 'Ready' and inner is not None and inner[0] == 'agg' and inner[2] == 'Some':
+                # the delivered Option: a literal Some(..), or a value the path knows to be Some (e.g. the result of
+                # mem::replace(&mut slot, None) handed on as a whole)
+                inner_some = inner is not None and ((inner[0] == 'agg' and inner[2] == 'Some') or
+                                                    E.variant_known(path.facts, inner) == ('eq', 'Some'))
+                if pv == 'Ready' and inner_some:
                     ndel += 1
-                    payload = inner[3][0][1]
+                    payload = inner[3][0][1] if inner[0] == 'agg' else E.project(inner, (('dc', 'Some'), '0'))
                     if mode == 'take':
                         ok = takes and payload == E.project(takes[0]['old'], (('dc', 'Some'), '0')) and not clones
                         msg = 'the single-consumer oneshot must move the value out of the slot with take()'
